@@ -10,6 +10,8 @@ LEAN_MODULES = ['AsynqModel.Theorems.C06', 'AsynqModel.Theorems.C07b', 'AsynqMod
 THEOREMS = ["AsynqModel.Core." + n for n in ['C06_flags', 'C06_flags_strong', 'C06_alternate', 'C06_nonasync_fails', 'C06_nonasync_only', 'C06_paused_at_ret', 'C06_resumed_awaits_top', 'C06_resumed_implies_awaiting', 'C06_paused_unless_awaiting', 'C06_paused_at_outer_flush', 'C06_flush_nested', 'C06_flush_nested_step', 'C06_own_code_resumed', 'C06_own_code_resumed_head', 'C06_own_code_resumed_after_call', 'C06b_ws', 'C06b_A_not_awaiting_B', 'Spec_C06_accepts', 'Spec_C06_accepts_reach', 'Spec_C06_accepts_run', 'Spec_C06_accepts_ctx', 'Spec_C06_watch_agrees', 'C06_registered_live', 'C06_active_awaits_top', 'Spec_C06_needs_guard']]
 LEAN_MODULES = LEAN_MODULES + ['AsynqModel.Theorems.AuditFixes']
 THEOREMS = THEOREMS + ["AsynqModel.Core." + n for n in ['C06_block_registered', 'C06_registered_iff_open', 'C06_own_block_resumed', 'C06_block_registered_needs_guard', 'C06_nonasync_only_any', 'C06_nonasync_only_reach', 'C06_suspNA_own_context']]
+LEAN_MODULES = LEAN_MODULES + ['AsynqModel.Theorems.C06d']
+THEOREMS = THEOREMS + ["AsynqModel.Core." + n for n in ['C06_awaiting_implies_resumed', 'C06_caller_awaits_running', 'C06_awaiting_caller_resumed', 'C06_active_iff_awaiting_tree', 'C06_open_resumed_implies_awaiting', 'C06_resumed_iff_on_spine', 'C06_scheduler_of_running_resumed', 'C06d_shared_not_resumed', 'Spec_C06strict_accepts', 'checkC06strict_of_checkC06', 'C06d_iff_needs_guard']]
 MIX = [('yield_ctx',5),('full',3),('nonasync',3)]
 RULE = ("grammar-generated task programs (profiles %s; trees and DAGs of tasks, 1-3 batch kinds with priority overrides "
         "and raising flushes, nested yield structures, errors, try/except, synchronous re-entry, contexts) interpreted on "
